@@ -333,6 +333,9 @@ def r07_4(ctx, rep, roles, snd):
         t = T.resolve_locals(eng, row.store, row.ret)
         sorts = [s for s in T.subterms(t) if s[0] == "call" and s[1].split("::")[-1] in (
             "sorted_unstable_by_key", "sorted_by_key", "sorted_by_cached_key", "sort_by_key", "sort_unstable_by_key")]
+        # `collect` into a Vec, sort it in place, hand out `into_iter()`: the sort is an event of the row, not part of the value
+        sorts += [("call", e[1], tuple(T.resolve_locals(eng, row.store, a) for a in e[2]), None) for e in row.calls()
+                  if sym.strip_all_generics(e[1]).split("::")[-1] in ("sort_by_key", "sort_unstable_by_key", "sort_by_cached_key")]
         srcs = [s for s in T.subterms(t) if s[0] == "call" and s[1] == roles.ns_stale_kvs["id"]]
         if srcs:
             a0, a1 = srcs[0][2][0], srcs[0][2][1]
